@@ -94,6 +94,11 @@ def run_case(case, ctx):
     end = start + tnum(prog, prog["rep"]["length"])
     h = Harness(prog)
     try:
+        if len(case["pauses"]) == 1:
+            # the judged replication is not the first one on this simulator: it was initialised once before
+            ctx.count("replications_on_a_simulator_initialised_before")
+            h.cmd("initialize")
+            h.reset_logs()
         if h.cmd("initialize") != "ok":
             ctx.viol("initialize-raises", where)
             return
